@@ -24,7 +24,7 @@ CLAIMS = {
     "C10": ("proof", "5 C10", "Cube-count classes of (A,B) and (B,A) proved to be each other's transposes (relational contracts on the real classes); wiring tables symmetric; public API transposition checked end-to-end (bounded).", P + "; " + E),
     "C11": ("proof", "5 C11", "Three-term variance code proved equal to E[X^2]-E[X]^2 of the +1/-1/0 indicator per block, NaN where the proportion is undefined (incl. categorical-date dimensions), non-negativity, sqrt(var/base), 1.959964 x std-error.", P),
     "C12": ("proof", "5 C12", "Adjusted standardized residual per block from the cell's own bases, rank guard, p-value in [0,1], 2x2 chi-square identity proved.", P),
-    "C13": ("proof", "5 C13", "t statistic / effective base / degrees of freedom / p-value per block incl. subtotal columns as selected column proved; antisymmetry, p symmetry, self-comparison lemmas proved over the statement's formula. Index sets and the overlap variant are not decided (see evidence).", P),
+    "C13": ("proof", "5 C13", "t statistic / effective base / degrees of freedom / p-value per block incl. subtotal columns as selected column proved; antisymmetry, p symmetry, self-comparison lemmas proved over the statement's formula. The index sets (display positions, alpha / secondary alpha, only-larger, never the column itself, under column reordering / hiding / insertion) and the composed t / p values are checked through the public API against respondent-level data (bounded). The Welch (means) and overlap variants are not decided (see evidence).", P + "; " + E),
     "C14": ("proof", "5 C14", "Scale mean proved equal to the respondent-level mean for all sizes; std-error proved; std-dev and median bounded (concrete sizes, symbolic contents); all statistics checked against respondent-level data end-to-end (bounded).", P + "; bounded stand-ins for std-dev / median; " + E),
     "C15": ("proof", "5 C15", "Every share-of-sum block proved to divide by the base-cell total of its row / column / table.", P),
     "C16": ("proof", "5 C16", "Baselines of the four unconditional-count classes, the index formula and the 3-D factory proved; end-to-end bounded check.", P + "; " + E),
